@@ -10,7 +10,7 @@
    C06_settles gives the continuation that reaches quiescence: together, once changes stop the run settles, up to date.
    KNOWN FINDING KF1: a change of a target's own declared input made while its script runs is absorbed by a skip; witness
    below, replayed on the real binary (defect D12). *)
-From Zinoma.Proofs Require Import SysWatch WatchKF1 SysWatchLive2 SysWatchLive3 SysWatchLive4 SysFresh SysFreshAgg Weights.
+From Zinoma.Proofs Require Import SysWatch WatchKF1 SysWatchLive2 SysWatchLive3 SysWatchLive4 SysFresh SysFreshAgg SysPrecise Weights.
 From Zinoma.Model Require Import Incremental.
 
 Theorem C06_invalidation_rearms_and_propagates :
@@ -198,6 +198,19 @@ Theorem C06_agg_path_via : forall s P aP m am x,
   actors s !! P = Some aP -> m ∈ a_deps aP -> actors s !! m = Some am -> a_kind am = AAggregate -> agg_path s m x -> agg_path s P x.
 Proof. exact ap_via. Qed.
 
+(* PRECISION: changes re-run only what depends on them.  `un` = any set of targets closed under dependencies (with a target, everything
+   it depends on).  In every mode, every graph, pinned or repaired handlers, every interleaving: in a run whose change notices
+   (`LChange ts`) never name a target of that set, no target of the set is started twice — whatever is rebuilt elsewhere, however
+   often. *)
+Theorem C06_unaffected_targets_start_once :
+  forall (fx w : bool) (g : graph) (roots : list tid) (un : tid -> bool),
+    (forall t kt deps d, un t = true -> g !! t = Some (kt, deps) -> d ∈ deps -> un d = true) ->
+    forall (ls : list label) (s : sys) (t : tid),
+      run_labels fx w (init_sys g roots) ls = Some s ->
+      (forall ts, LChange ts ∈ ls -> forall x, x ∈ ts -> un x = false) ->
+      un t = true -> (count_occ obs_eq_dec (hist s) (ObStart t) <= 1)%nat.
+Proof. exact unaffected_targets_start_once. Qed.
+
 Theorem C06_none_failedb_spec : forall s, none_failedb s = true -> none_failed s.
 Proof. exact none_failedb_spec. Qed.
 
@@ -231,6 +244,24 @@ Example C06_quiescent_after_change_through_aggregate :
     (quiescent true true s && is_running s && none_failedb s &&
      bool_decide (hist s = [ObStart 1%N; ObSucc 1%N; ObStart 2%N; ObSucc 2%N; ObStart 1%N; ObSucc 1%N; ObStart 2%N; ObSucc 2%N])) = true.
 Proof. apply witness_intro. vm_compute. reflexivity. Qed.
+
+(* ... with an unrelated target next to it: `2: [1]` and `7`, both requested, watched; the input of 1 changes: 1 and 2 run twice,
+   7 once (C06_unaffected_targets_start_once with un = {7}) *)
+Example C06_unaffected_target_runs_once :
+  let g : graph := <[1%N := (ABuild, [])]> (<[2%N := (ABuild, [1%N])]> (<[7%N := (ABuild, [])]> ∅)) in
+  exists s,
+    run_labels true true (init_sys g [2%N; 7%N])
+      [LDeliver 7%N true; LDeliver 7%N true; LBuildDone 7%N RCompleted; LDeliver 2%N true; LDeliver 1%N true; LDeliver 1%N true;
+       LBuildDone 1%N RCompleted; LDeliver 2%N true; LDeliver 2%N true; LDeliver 2%N true; LBuildDone 2%N RCompleted;
+       LRoot; LRoot; LRoot; LRoot;
+       LChange [1%N];
+       LInval 1%N true; LBuildDone 1%N RCompleted; LDeliver 2%N true; LDeliver 2%N true; LBuildDone 2%N RCompleted;
+       LRoot; LRoot] = Some s /\
+    (quiescent true true s && none_failedb s &&
+     bool_decide (hist s = [ObStart 7%N; ObSucc 7%N; ObStart 1%N; ObSucc 1%N; ObStart 2%N; ObSucc 2%N;
+                            ObStart 1%N; ObSucc 1%N; ObStart 2%N; ObSucc 2%N])) = true.
+Proof. apply witness_intro. vm_compute. reflexivity. Qed.
+
 
 
 (* THE REBUILD CASCADE IS FINITE (repaired handlers; watch mode and one-shot alike; every graph whose dependencies decrease a
